@@ -71,8 +71,18 @@ def _raises_on_return_code(fn: FuncInfo) -> bool:
     """an `if` on the return code alone (truthiness, `!= 0`, `> 0`; no narrowing conjunct) whose every
     path raises."""
 
+    # the return code: first element unpacked from the result of the executor call, or the 'return_code'
+    # entry of the mapping built from it (no dependence on the locals' names)
+    exec_vars = {t.id for n in walk_own(fn.node) if isinstance(n, ast.Assign) and isinstance(n.value, ast.Call) and (dotted(n.value.func) or "").endswith("execute") for t in n.targets if isinstance(t, ast.Name)}
+    rc_names = set()
+    for n in walk_own(fn.node):
+        if isinstance(n, ast.Assign) and isinstance(n.targets[0], ast.Tuple) and n.targets[0].elts and isinstance(n.targets[0].elts[0], ast.Name):
+            src_is_exec = (isinstance(n.value, ast.Name) and n.value.id in exec_vars) or (isinstance(n.value, ast.Call) and (dotted(n.value.func) or "").endswith("execute"))
+            if src_is_exec:
+                rc_names.add(n.targets[0].elts[0].id)
+
     def is_rc(k):
-        return (isinstance(k, ast.Name) and k.id == "return_code") or (isinstance(k, ast.Constant) and k.value == "return_code")
+        return (isinstance(k, ast.Name) and k.id in rc_names) or (isinstance(k, ast.Constant) and k.value == "return_code")
 
     for g, extra in rejecting_guards(fn.node, is_rc):
         if extra:
